@@ -14,11 +14,13 @@ import (
 )
 
 type rowRec struct {
-	Kind string          `json:"kind"`
-	Reqs []aReq          `json:"reqs,omitempty"`
-	Fam  []string        `json:"fam,omitempty"`
-	Rule *aRule          `json:"rule,omitempty"`
-	Exp  []int           `json:"exp,omitempty"`
+	Kind string   `json:"kind"`
+	Reqs []aReq   `json:"reqs,omitempty"`
+	Fam  []string `json:"fam,omitempty"`
+	Rule *aRule   `json:"rule,omitempty"`
+	Exp  []int    `json:"exp,omitempty"`
+	// Text: if set, the first rendering of the row is this very text (an event of a trace is re-executed as it was written)
+	Text string          `json:"text,omitempty"`
 	Raw  json.RawMessage `json:"-"`
 }
 
@@ -124,6 +126,9 @@ func cmdReplayRule(args []string) error {
 		}
 		for v := 0; v < nvar; v++ {
 			text := rec.Rule.text(v, rnd)
+			if v == 0 && rec.Text != "" {
+				text = rec.Text
+			}
 			if v == 0 && len(samples) < 6 && rows%37 == 1 {
 				samples = append(samples, text)
 			}
